@@ -16,6 +16,10 @@ WSENDER = "src/addr/weak_sender.rs"
 CTX = "src/context.rs"
 BRK = "src/broker.rs"
 MUTANTS = [
+ {"name": "envctor_context_watches_another_slot", "why": "the context observes a different oneshot than the one the notifier resolves: ctx-derived weak addresses never see the termination", "expect": {"props": ["C14", "C04"], "obligation": "env.from-channel-one-running-slot-for-notifier-context-and-address"},
+  "edits": [(ENV, "            running: futures::FutureExt::shared(rx_running),\n", "            running: futures::FutureExt::shared(oneshot::channel::<()>().1),\n"), (ENV, "            running: ctx.running.clone(),\n        };\n        Environment {", "            running: futures::FutureExt::shared(rx_running),\n        };\n        Environment {")]},
+ {"name": "envctor_recreating_resets_config", "why": "switching to recreate-from-default silently drops the configured timeout", "expect": {"props": ["C07", "C11"], "obligation": "env.recreating-keeps-everything"},
+  "edits": [(ENV, "            stop: self.stop,\n            config: self.config,\n            payload_stream: self.payload_stream,\n            phantom: PhantomData,", "            stop: self.stop,\n            config: Default::default(),\n            payload_stream: self.payload_stream,\n            phantom: PhantomData,")]},
  {"name": "broker_publish_delivers_twice", "why": "every live subscriber gets each publication twice", "expect": {"props": ["C09"], "obligation": "broker.publish-inv"},
   "edits": [(BRK, "            if let Err(_error) = subscriber.send(msg.0.clone()).await {", "            let _ = subscriber.send(msg.0.clone()).await;\n            if let Err(_error) = subscriber.send(msg.0.clone()).await {")]},
  {"name": "broker_publish_stops_at_dead_subscriber", "why": "a terminated subscriber ends the fan-out: the remaining subscribers miss the publication", "expect": {"props": ["C09"], "obligation": "broker.publish-exactly-once-to-every-live-subscriber-and-to-no-one-else"},
